@@ -71,6 +71,14 @@ def load(path: Union[str, DDSPath, pathlib.Path]) -> Any:
         # The path is produced by the current evaluation: it is committed to the store
         # only at the end of the evaluation, but its blob is already available.
         key = _eval_ctx.requested_paths[path_]
+        if not _store().has_blob(key):
+            # Nothing has produced it so far (it is only kept later, or by a function that is
+            # mentioned but not called): there is no value to return yet.
+            raise DDSException(
+                f"Requested to load path {path_}, which this evaluation is expected to produce, "
+                f"but it has not been produced yet",
+                DDSErrorCode.LOAD_BEFORE_STORE,
+            )
     else:
         key = _store().fetch_paths([path_]).get(path_)
     if key is None:
